@@ -596,6 +596,11 @@ def generate(rng, index, tier):
               for _ in range(rng.randint(1, 4))]
         if rng.random() < 0.8:
             ts = list(dict.fromkeys(ts))
+        if rng.random() < 0.12:
+            # whole numbers handed over as integers
+            ts = [rng.randint(1, 5) for _ in ts]
+            if rng.random() < 0.7:
+                ts = list(dict.fromkeys(ts))
         if rng.random() < 0.25:
             # a time requested twice (replicate measurements)
             ts.insert(rng.randint(0, len(ts)), rng.choice(ts))
